@@ -1,7 +1,15 @@
 """C11 — the formatter preserves meaning, keeps comments, is idempotent and total.
 Format is specified as a stuttering step on the abstract state (syntax tree, comment sequence) that is idempotent on
 text (spec/Format.tla, validated as traces Original -> Format -> Format); meaning is additionally checked by running the
-formatted text of generated programs against the KotoCore prediction."""
+formatted text of generated programs against the KotoCore prediction.
+
+Domain.  The formatter's line breaker is unreliable whenever something does not fit the line length (known finding LB, pinned
+inputs in known_findings.json).  Everything except totality is therefore decided on the pairs (text, options) for which nothing
+needs breaking: every line of the reference layout format(text, options with line_length = 255) is at most line_length wide and
+no chain is broken that the text as given has on one line; and the syntax tree has none of the unusual shapes of known finding
+WS (harness odd_shapes: a range as operand of a range without parentheses, a tuple without parentheses holding a call without
+parentheses, a call without parentheses applied to a call result).
+Outside the domain only totality (no panic, no error) is decided."""
 import json, os, random, re
 import common, corpus, core_replay, kast, gen_core, gen_calls, gen_match, gen_errors, gen_dispatch
 
@@ -36,14 +44,13 @@ def strip_nested(s):
     return s
 
 
-COSMETIC = [(re.compile(r"with_parens: (true|false)"), "with_parens: _"), (re.compile(r"inline: (true|false)"), "inline: _"),
+COSMETIC = [(re.compile(r"inline: (true|false)"), "inline: _"),
             (re.compile(r"braces: (true|false)"), "braces: _"), (re.compile(r"parens: (true|false)"), "parens: _")]
 
 
 def canon(c):
     if c is None:
         return None
-    c = strip_nested(c)
     for rx, rep in COSMETIC:
         c = rx.sub(rep, c)
     return c
@@ -83,18 +90,50 @@ def run(tier, seed):
                 src = re.sub(r"\b%s\b" % a, b, src)
             src = src.replace("'boom", "'bööm😀")
         texts.append((p["id"], src, p["id"]))
+    # string format options: fill x alignment x width x precision x representation
+    specs = []
+    for fill in ("", "_", "0", "é", "😀"):
+        for al in ("", "<", "^", ">"):
+            if fill and not al and fill != "0":
+                continue
+            for w in ("", "6", "06", "12"):
+                if fill == "0" and not al and not w:
+                    continue
+                for pr in ("", ".0", ".3"):
+                    for rp in ("", "?", "x", "X", "b", "o", "e", "E"):
+                        specs.append(fill + al + w + pr + rp)
+    specs = sorted(set(x for x in specs if x))
+    if quick:
+        specs = rng.sample(specs, 150)
+    for i in range(0, len(specs), 6):
+        src = "x = 42\ny = 3.14159\nz = 'héllo'\n" + "".join("print '{x:%s} {y:%s}' + \"{z:%s}\"\n" % (sp, sp, sp) for sp in specs[i:i + 6])
+        texts.append(("specs:%d" % i, src, None))
     if not quick:
         for s in corpus.sources():
             for k, v in enumerate(corpus.token_neighbourhood(s["src"], rng, 6)):
                 texts.append(("mut:%s:%d" % (s["name"], k), v, None))
-    grid = [{}] + [{"line_length": ll, "indent_width": iw, "chain_break_threshold": cb, "always_indent_arms": ai}
-                   for ll in (20, 40, 100) for iw in (2, 4) for cb in (0, 2, 4) for ai in (False, True)]
+    LENGTHS = (20, 40, 60, 100, 160, 255)
+    grid = [{"line_length": ll, "indent_width": iw, "chain_break_threshold": cb, "always_indent_arms": ai}
+            for ll in LENGTHS for iw in (2, 4) for cb in (0, 2, 4) for ai in (False, True)]
+    DEFAULT = {"line_length": 100, "indent_width": 2, "chain_break_threshold": 4, "always_indent_arms": False}
     jobs = []
     for n, (name, src, pid) in enumerate(texts):
-        opts = [grid[0]] + ([rng.choice(grid[1:])] if quick else rng.sample(grid[1:], 4))
+        opts = [DEFAULT] + ([rng.choice(grid)] if quick else rng.sample(grid, 4))
         for k, o in enumerate(opts):
             jobs.append(dict({"id": "%d|%d" % (n, k), "src": src}, **o))
     res = common.kv_parallel("format", jobs, per_job_timeout=60)
+    refs = common.kv_parallel("format", [dict(j, line_length=255) for j in jobs], per_job_timeout=60)
+    ref_of = {j["id"]: r for j, r in zip(jobs, refs)}
+    def chain_lines(t):
+        return sum(1 for ln in t.split("\n") if ln.lstrip().startswith("."))
+    # in the domain: the reference layout fits, and it breaks no chain that the text as given has on one line
+    in_domain = {j["id"]: (r.get("status") == "ok" and r.get("max_width", 10 ** 6) <= j["line_length"]
+                           and chain_lines(r.get("text", "")) <= chain_lines(j["src"]) and not r.get("odd_shapes"))
+                 for j, r in zip(jobs, refs)}
+    dom_count = {ll: [0, 0] for ll in LENGTHS}
+    for j in jobs:
+        dom_count[j["line_length"]][0] += 1
+        dom_count[j["line_length"]][1] += 1 if in_domain[j["id"]] else 0
     # comments: lex input and output
     lex_jobs, lex_idx = [], []
     for job, r in zip(jobs, res):
@@ -102,20 +141,24 @@ def run(tier, seed):
             lex_jobs += [{"id": len(lex_jobs), "src": job["src"]}, {"id": len(lex_jobs) + 1, "src": r["text"]}]
             lex_idx.append((job, r))
     lexed = common.kv_parallel("lex", lex_jobs, per_job_timeout=30)
-    formatted = 0
+    formatted = outside = differs_from_reference = 0
     rerun = []
     traces = []
     for k, (job, r) in enumerate(lex_idx):
-        formatted += 1
         n = int(job["id"].split("|")[0])
         name, src, pid = texts[n]
+        if not in_domain[job["id"]]:
+            outside += 1
+            continue
+        formatted += 1
         why = None
         ci, co = canon(r.get("canon_in")), canon(r.get("canon_out"))
         cin = comments_of(job["src"], lexed[2 * k])
         cout = comments_of(r["text"], lexed[2 * k + 1])
         traces.append({"id": job["id"], "events": [{"ast": common.sha(ci or ""), "com": common.sha(json.dumps(cin)), "txt": common.sha(job["src"])},
                                                     {"ast": common.sha(co or "!"), "com": common.sha(json.dumps(cout)), "txt": common.sha(r["text"])},
-                                                    {"ast": common.sha(co or "!"), "com": common.sha(json.dumps(cout)), "txt": common.sha(r.get("text2") or "!")}]})
+                                                    {"ast": common.sha(co or "!"), "com": common.sha(json.dumps(cout)), "txt": common.sha(r.get("text2") or "!")}],
+                       "ref": common.sha(ref_of[job["id"]].get("text") or "!")})
         if r.get("canon_out") is None:
             why = "formatted text does not parse: %s" % (r.get("canon_out_err") or "")[:200]
         elif ci != co:
@@ -127,11 +170,17 @@ def run(tier, seed):
             why = "comments differ: %s vs %s" % (cin[:6], cout[:6])
         elif r.get("text2") != r.get("text"):
             why = "not idempotent: formatting the output changes it again"
+        elif r.get("text") != ref_of[job["id"]].get("text"):
+            differs_from_reference += 1            # allowed (e.g. a line exactly as long as the limit); reported in the evidence only
         if why:
             rep.violation("fmt_%s" % job["id"].replace("|", "_"), {"property": PROP, "why": why, "name": name, "options": {k2: v for k2, v in job.items() if k2 not in ("id", "src")},
                                                                     "source": job["src"], "formatted": r.get("text"), "formatted_twice": r.get("text2")})
-        elif pid is not None and job["id"].endswith("|1") and preds[pid]["status"] in ("ok", "err") and "zähler" not in job["src"]:
-            rerun.append((pid, job, r["text"]))
+        elif pid is not None and job["id"].endswith("|1"):
+            renamed = any(ord(ch) > 127 for ch in job["src"])
+            if renamed:
+                rerun.append((pid, job, r["text"], "orig"))      # renamed text: compare with a run of the text as given
+            elif preds[pid]["status"] in ("ok", "err"):
+                rerun.append((pid, job, r["text"], "pred"))
     for job, r in zip(jobs, res):
         if r.get("status") in ("panic", "abort", "hang"):
             n = int(job["id"].split("|")[0])
@@ -142,12 +191,21 @@ def run(tier, seed):
             rep.violation("fmt_%s" % job["id"].replace("|", "_"), {"property": PROP, "why": "formatter returned an error for a program that parses: %s" % (r.get("err_msg") or "")[:300],
                                                                     "name": texts[n][0], "source": job["src"]})
     # meaning: the formatted text of generated programs behaves as predicted
-    rr = common.kv_parallel("run", [{"id": pid, "src": text, "limit_ms": 5000} for pid, job, text in rerun])
-    for (pid, job, text), r in zip(rerun, rr):
-        why = core_replay.compare(preds[pid], r)
+    rr = common.kv_parallel("run", [{"id": pid, "src": text, "limit_ms": 5000} for pid, job, text, mode in rerun])
+    ro = common.kv_parallel("run", [{"id": pid, "src": job["src"], "limit_ms": 5000} for pid, job, text, mode in rerun if mode == "orig"])
+    ro = iter(ro)
+    for (pid, job, text, mode), r in zip(rerun, rr):
+        if mode == "orig":
+            o = next(ro)
+            why = None if (o.get("status"), o.get("stdout"), o.get("value")) == (r.get("status"), r.get("stdout"), r.get("value")) \
+                else "status/output %s/%r as given, %s/%r formatted" % (o.get("status"), (o.get("stdout") or "")[-200:], r.get("status"), (r.get("stdout") or "")[-200:])
+        else:
+            why = core_replay.compare(preds[pid], r)
         if why:
             rep.violation("meaning_%s" % pid, {"property": PROP, "why": "formatted program behaves differently: " + why, "source": job["src"], "formatted": text,
-                                               "predicted": preds[pid], "actual": r})
+                                               "predicted": preds[pid] if mode == "pred" else None, "actual": r})
+    # pinned inputs of the recorded line-breaking finding
+    npinned = pinned(rep)
     # the traces against Format.tla
     pth = os.path.join(common.WORK, "fmt_traces_%d.ndjson" % os.getpid())
     with open(pth, "w") as f:
@@ -163,18 +221,57 @@ def run(tier, seed):
     rep.coverage = {
         "evaluations": len(jobs), "distinct_nontrivial": formatted,
         "rule": "inputs: corpus (%d texts), generated programs of all KotoCore families in random layouts with comments (some with "
-                "non-ASCII identifiers and string contents)%s; options: default plus %s of the 36-point grid line_length {20,40,100} x "
-                "indent_width {2,4} x chain_break_threshold {0,2,4} x always_indent_arms; counted: inputs that parse and were formatted" % (
+                "non-ASCII identifiers and string contents)%s; options: default plus %s of the 72-point grid line_length {20,40,60,100,160,255} x "
+                "indent_width {2,4} x chain_break_threshold {0,2,4} x always_indent_arms; counted: (text, options) pairs in the domain (nothing needs breaking: every line of the layout for line_length 255 fits)" % (
                     len(corpus.sources()), "" if quick else ", corpus token neighbourhood", "1 random point" if quick else "4 random points"),
         "samples": [{"input": texts[-1][1][:400]}],
         "states": st["states"] + tl.distinct, "transitions": st["transitions"] + tl.states_generated,
         "traces_validated_against_impl": len(traces), "meaning_reruns": len(rerun), "format_traces_rejected": nbad,
+        "pairs_outside_domain_checked_for_totality_only": outside, "in_domain_layout_differs_from_reference": differs_from_reference, "pinned_known_finding_inputs": npinned,
+        "in_domain_by_line_length": {str(k): "%d of %d" % (v[1], v[0]) for k, v in dom_count.items()},
         "explanation": "Format.tla states the property (stuttering on syntax tree and comment sequence, idempotent on text); the substance "
                        "is the exploration of inputs x options against the real formatter",
     }
-    rep.assumptions = ["syntax trees are compared after removing purely cosmetic attributes (redundant parentheses, paren-free vs parenthesised "
+    rep.assumptions = ["outside the domain (something does not fit the line length) only totality is decided: the formatter's line breaker is a "
+                       "recorded known finding (LB) with pinned inputs",
+                       "syntax trees are compared after removing purely cosmetic attributes (redundant parentheses, paren-free vs parenthesised "
                        "calls, inline vs block flags)", "comments are compared as whitespace-normalised text in order"]
     return rep.finish()
+
+
+def outcome(r):
+    """What is wrong with one format result (None: nothing)."""
+    if r.get("status") in ("panic", "abort", "hang"):
+        return "panic"
+    if r.get("status") != "ok":
+        return r.get("status")
+    if r.get("canon_out") is None:
+        return "noparse"
+    if canon(r.get("canon_in")) != canon(r.get("canon_out")):
+        return "ast"
+    if r.get("text") != r.get("text2"):
+        return "idem"
+    return None
+
+
+def pinned(rep):
+    n = 0
+    for f in rep.known:
+        if PROP not in f.get("properties", [f.get("property")]):
+            continue
+        jobs = [dict({"id": c["case"], "src": c["source"]}, **c["options"]) for c in f["inputs"]]
+        for c, r in zip(f["inputs"], common.kv("format", jobs)):
+            n += 1
+            got = outcome(r)
+            if got is None:
+                continue                                   # repaired: silent
+            if got == c["kind"]:
+                rep.known_finding(f["id"], "%s: %s" % (c["case"], c["what"]))
+            else:
+                rep.violation("pinned_%s" % c["case"], {"property": PROP, "finding": f["id"], "source": c["source"], "options": c["options"],
+                                                        "why": "pinned known-finding input fails differently from what is recorded: %s instead of %s" % (got, c["kind"]),
+                                                        "formatted": r.get("text")})
+    return n
 
 
 def replay(path):
